@@ -241,4 +241,8 @@ def stage1 : Stmt → Bool
   | .blk s => stage1 s
   | .ifIter _ s => stage1 s
 
+/-- executable check that the compositional emission and the back-patching mirror of compiler_stmt.go
+produce the same instruction list for `p` (the driver evaluates it for every generated stage-1 program) -/
+def sameCode (p : Stmt) : Bool := (compileS p).toArray == compileProgram p
+
 end GojaModel.C08
